@@ -10,8 +10,10 @@ VERIF = os.path.dirname(HERE)
 sys.path.insert(0, VERIF)
 from selftest.mutants import MUTANTS
 
-SCRATCH = os.path.expanduser("~/.bsa-selftest/repo")
-EVD = os.path.expanduser("~/.bsa-selftest/evidence")
+SLOT = sys.argv[sys.argv.index("--slot") + 1] if "--slot" in sys.argv else "0"
+ROOT = os.path.expanduser("~/.bsa-selftest/slot" + SLOT)
+SCRATCH = os.path.join(ROOT, "repo")
+EVD = os.path.join(ROOT, "evidence")
 
 
 def fresh_copy():
@@ -40,8 +42,18 @@ def main():
     args = [a for a in sys.argv[1:] if not a.startswith("--")]
     only = None
     if "--only" in sys.argv:
-        only = sys.argv[sys.argv.index("--only") + 1]
+        only = sys.argv[sys.argv.index("--only") + 1]      # prefix of the mutant id
         args = [a for a in args if a != only]
+    if "--slot" in sys.argv:
+        args = [a for a in args if a != SLOT]
+    # one run per slot at a time (a second run in the same slot would wipe the first one's scratch copy)
+    import fcntl
+    os.makedirs(os.path.dirname(ROOT), exist_ok=True)
+    lock = open(ROOT + ".lock", "w")
+    try:
+        fcntl.flock(lock, fcntl.LOCK_EX | fcntl.LOCK_NB)
+    except OSError:
+        raise SystemExit("selftest slot %s is busy: pass --slot <other>" % SLOT)
     props = set(a.upper() for a in args)
     os.makedirs(EVD, exist_ok=True)
     fresh_copy()
@@ -50,7 +62,7 @@ def main():
         for m in MUTANTS:
             if props and m["prop"] not in props:
                 continue
-            if only and m["id"] != only:
+            if only and not m["id"].startswith(only):
                 continue
             apply(m)
             t0 = time.time()
@@ -73,7 +85,7 @@ def main():
             res.append({"id": m["id"], "prop": m["prop"], "benign": bool(m.get("benign")), "verdict": verdict, "ok": ok})
     finally:
         if "--keep" not in sys.argv:
-            shutil.rmtree(os.path.expanduser("~/.bsa-selftest"), ignore_errors=True)
+            shutil.rmtree(ROOT, ignore_errors=True)
             # the scratch copy's private target dir lives under /verif/build
             import hashlib
             tag = hashlib.sha256(os.path.abspath(SCRATCH).encode()).hexdigest()[:8]
@@ -81,7 +93,16 @@ def main():
                 pass
     bad = [r for r in res if not r["ok"]]
     print("selftest: %d run, %d ok, %d not ok" % (len(res), len(res) - len(bad), len(bad)))
-    json.dump(res, open(os.path.join(HERE, "last_result.json"), "w"), indent=1)
+    # merge into the cumulative record (by mutant id)
+    rec_path = os.path.join(HERE, "last_result.json")
+    try:
+        rec = {r["id"]: r for r in json.load(open(rec_path))}
+    except Exception:
+        rec = {}
+    for r in res:
+        rec[r["id"]] = r
+    known = {m["id"] for m in MUTANTS}
+    json.dump([rec[k] for k in sorted(rec) if k in known], open(rec_path, "w"), indent=1)
     return 1 if bad else 0
 
 
